@@ -57,7 +57,7 @@ def run(rep, ctx):
     _REPO[0] = repo
     fn = [r"mp::pre::ValuePresolverImpl::.*", r"mp::pre::ValuePresolver::.*", r"mp::RangeConstraintConverter::.*",
           r"mp::pre::RangeCon2Slack::.*", r"mp::pre::AutoLinkScope::.*", r"mp::pre::ValueNode::.*",
-          r"mp::pre::(CopyLink|Many2ManyLink|One2ManyLink|BasicLink|BasicStaticIndivEntryLink)::.*",
+          r"mp::pre::(CopyLink|Many2ManyLink|One2ManyLink|BasicLink|BasicStaticIndivEntryLink)::.*", r"mp::pre::NodeRange::(ExtendBy|TryExtendBy|ExtendableBy)",
           r"mp::ConstraintKeeper::AddAllUnbridged",
           r"mp::ProblemFlattener::(ConvertVars|Convert|ConvertAlgCon|ConvertLogicalCon)",
           r"mp::FlatConverter::(DoAddVar|AddVar|AddVars|MakeFixedVar|AddConstraint|AddConstraint_AS_ROOT|"
@@ -367,6 +367,71 @@ def run(rep, ctx):
                      "RangeCon2Slack defines %s%sEntry" % (dirn, k_))
 
     # ---- T2 ---------------------------------------------------------------------------
+    # ---- E1: a link entry's source and target ranges stay in step ---------------------------------
+    e1 = rep.rule("C04.E1", "PATH", "when an entry is merged into the previous one, source and target ranges are extended together (copy link) or exactly one side under equality of the other (many-to-many)", floor=3)
+    MUT = ("ExtendBy", "TryExtendBy")
+
+    def side_of(c):
+        o = render(call_object(c)).replace(" ", "")
+        return "first" if o.endswith(".first") else "second" if o.endswith(".second") else None
+    for f in all_of("mp::pre::CopyLink::AddEntry"):
+        mut = {"first": [], "second": []}
+        for c in f.walk():
+            if c["k"] == "CXXMemberCallExpr" and (c.get("callee") or "").split("::")[-1] in MUT and side_of(c):
+                mut[side_of(c)].append(c)
+        ok = bool(mut["first"]) and bool(mut["second"])
+        why = "no range extension found"
+        for a, b in (("first", "second"), ("second", "first")):
+            for m in mut[a]:
+                pos = f.cfg.position(m)
+                if pos is None:
+                    continue
+                w = f.cfg.path_avoiding(pos, "exit", [x["i"] for x in mut[b]])
+                dominated = any(f.cfg.dominates(x, m) and not f.cfg.path_avoiding(f.cfg.position(x), [m["i"]], []) is None for x in mut[b]) and \
+                    all((x.get("callee") or "").endswith("::ExtendBy") for x in mut[b] if f.cfg.dominates(x, m))
+                if w is not None and not dominated:
+                    if ok:
+                        why = "the %s range of the last entry can be extended on a path that leaves its %s range unchanged" % (a, b)
+                    ok = False
+        # both extensions only when both sides are extendable
+        for m in mut["first"] + mut["second"]:
+            if (m.get("callee") or "").endswith("::ExtendBy"):
+                fa = [(render(f.nodes[cid]).replace(" ", ""), pol) for cid, pol in branch_facts(f, m)]
+                flat = []
+                for t, p_ in fa:
+                    flat.append((t, p_))
+                need = [x for x in flat if "ExtendableBy" in x[0]]
+                txt = " ".join(t for t, _ in fa)
+                if not ("first.ExtendableBy(be.first)" in txt and "second.ExtendableBy(be.second)" in txt):
+                    ok = False
+                    why = "ExtendBy is not guarded by the extendability of both ranges"
+        e1.check(ok, "copy-link|AddEntry", short_loc(f.loc), "CopyLink::AddEntry extends both ranges of the last entry or neither",
+                 "CopyLink::AddEntry: %s: the entry then maps k+1 source items onto k targets and every later value of that entry lands one item off" % why)
+    for f in all_of("mp::pre::Many2ManyLink::AddEntry"):
+        muts = [c for c in f.walk() if c["k"] == "CXXMemberCallExpr" and (c.get("callee") or "").split("::")[-1] in MUT and side_of(c)]
+        ok = len(muts) == 2
+        why = "%d extension calls" % len(muts)
+        for m in muts:
+            sd = side_of(m)
+            other = "second" if sd == "first" else "first"
+            fa = [(render(f.nodes[cid]).replace(" ", ""), pol) for cid, pol in f.cfg.facts_at(m)]
+            if not any(("back()." + other + "==be." + other) in t and pol for t, pol in fa):
+                ok = False
+                why = "the %s range is extended without the %s ranges being equal" % (sd, other)
+            if render(call_args(m)[0]).replace(" ", "") != "be." + sd:
+                ok = False
+                why = "the %s range is extended by %s" % (sd, render(call_args(m)[0]))
+        e1.check(ok, "many2many|AddEntry", short_loc(f.loc), "Many2ManyLink::AddEntry extends one side only when the other sides are equal", why)
+    for f in all_of("mp::pre::NodeRange::TryExtendBy")[:1]:
+        ex = calls(f, name="ExtendBy")
+        okt = len(ex) == 1 and any("ExtendableBy(nr)" in render(f.nodes[cid]) and pol is True for cid, pol in f.cfg.facts_at(ex[0])) or \
+            (len(ex) == 1 and any("ExtendableBy(nr)" in render(f.nodes[cid]) for cid, pol in f.cfg.facts_at(ex[0])))
+        e1.check(okt, "try-extend", short_loc(f.loc), "TryExtendBy extends only when ExtendableBy holds")
+    for f in all_of("mp::pre::NodeRange::ExtendableBy")[:1]:
+        r = [x for x in f.walk() if x["k"] == "ReturnStmt"]
+        t = render(kids(r[0])[0]).replace(" ", "") if len(r) == 1 else ""
+        e1.check("pvn_==nr.pvn_" in t and "ir_.end_==nr.ir_.beg_" in t and "&&" in t, "extendable", short_loc(f.loc), "extendable = same node and contiguous (end == next begin)")
+
     t2 = rep.rule("C04.T2", "GUARD", "node sizing: vectors are brought to the declared size before they are indexed", floor=6)
     for f in all_of("mp::pre::ValueNode::operator="):
         rs = calls(f, name="resize")
